@@ -49,6 +49,7 @@ META = {
 SECRET = b"\x11" * 32
 OTHER_SECRET = b"\x22" * 32
 KID = "prod-use1"
+KID_B = "partner-1"  # key id of the second proxy in the multi-gate chains (its secret is OTHER_SECRET)
 LABEL = "edge-proxy-A"
 ORIGIN = "origin-1"
 NOW = 1_700_000_000
@@ -230,7 +231,7 @@ def run(ctx: Any) -> None:  # noqa: C901 - one linear script
             p = 2
         else:
             p = {LABEL: 1, "": 0}.get(d["proxy"], 99)
-        k = {KID: 1, "": 0}.get(d.get("kid"), 99)
+        k = {KID: 1, KID_B: 1, "": 0}.get(d.get("kid"), 99)
         r = 0 if d.get("reason") == "ok" else REASON_CODE.get(d.get("reason"), 99)
         return [v, p, k, r]
 
@@ -292,7 +293,7 @@ def run(ctx: Any) -> None:  # noqa: C901 - one linear script
     def enc_log(log: list[Any]) -> list[int]:
         out: list[int] = []
         for ev in log:
-            out += [20] if ev == "gate" else [21, ev[1]]
+            out += [20] if (ev == "gate" or ev[0] == "g") else [21, ev[1]]
         return out
 
     def enc_out(result: Any, exc: BaseException | None, log: list[Any]) -> list[int]:
@@ -343,7 +344,9 @@ def run(ctx: Any) -> None:  # noqa: C901 - one linear script
         "replay cache per case) x inner authenticator (none + 19 behaviours: 7 accepted contexts, 6 AuthFailure codes, 6 other "
         "exception classes); custom PreconditionGates (claims / exception grid) x inner; constructor grids (gate at every position of "
         "chains up to length 3/4, require_all on non-gates, proxy_proof_gate per mode); chains of up to 3 plain authenticators; "
-        "chain(require_all(gate, a), b); the same requests through the Falcon app. Non-trivial = not a constructor-only case."
+        "chain(require_all(gate, a), b); chains of 2-3 require_all wrappers around DISTINCT gates (proxy gates with different key maps / "
+        "modes sharing the claims key; custom gates with equal and with different claims keys) x token {none, valid for A, valid for B, "
+        "garbage} x inner {accept, reject, ValueError, none} evaluated within ONE request with a per-gate invocation log; the same requests through the Falcon app. Non-trivial = not a constructor-only case."
     )
 
     # ------------------------------------------------------------------ 1. the gate alone, and constructor
@@ -520,6 +523,118 @@ def run(ctx: Any) -> None:  # noqa: C901 - one linear script
         ctx.case(["chain-ra", mode, hname, an, bn])
         if mode == "require" and hname not in VALID and (log != ["gate"] or not isinstance(e, PermissionError) or isinstance(e, ValueError)):
             ctx.violation("gate-failure-swallowed-by-chain", "a failed required gate did not end chain(require_all(gate, a), b)", repl)
+
+    # ------------------------------------------------------------------ 4b. several require_all wrappers around DISTINCT gates, ONE request
+    # chain(require_all(gate_1, inner_1), ..., require_all(gate_n, inner_n)): every wrapper must evaluate ITS OWN gate for
+    # this request before its inner authenticator is consulted; gates differ in key map / mode but share the claims key.
+    def make_gate_i(mode: str, which: str, log: list[Any], idx: int) -> Any:
+        secrets = {KID: (SECRET, LABEL)} if which == "A" else {KID_B: (OTHER_SECRET, LABEL)}
+        g = proxy_proof_gate(ProxyProofConfig(mode=mode, origin_id=ORIGIN, secrets=secrets, skew_seconds=SKEW), now=lambda: NOW)
+        orig = g._fn
+
+        def logged(req: Any) -> Any:
+            try:
+                out = orig(req)
+            except BaseException:
+                log.append(("g", idx, False))
+                raise
+            log.append(("g", idx, out.get("verified") == "true" or mode == "allow"))
+            return out
+
+        g._fn = logged
+        return g
+
+    # what each kind of gate answers for each kind of token (model input; the correspondence checks it)
+    TOKENS: dict[str, tuple[Any, dict[str, str]]] = {
+        "none": (lambda: None, {"A": "HAbsent", "B": "HAbsent"}),
+        "valid-for-A": (lambda: mint(), {"A": "HToken None", "B": F("RUnknownKid")}),
+        "valid-for-B": (lambda: mint(secret=OTHER_SECRET, kid=KID_B), {"A": F("RUnknownKid"), "B": "HToken None"}),
+        "garbage": (lambda: "not a proof", {"A": F("RMalformed"), "B": F("RMalformed")}),
+    }
+    GATE_KINDS = [("allow", "A"), ("require", "A"), ("allow", "B"), ("require", "B")]
+    W_INNER: list[tuple[str, Any]] = [("accept", None), ("reject-invalid", AuthFailure(AuthReason.INVALID_CREDENTIAL, "no")), ("raise-ValueError", ValueError("v")), ("no-inner", "NONE")]
+
+    def check_multi(log: list[Any], inners: list[Any], gate_modes: list[str | None], r: Any, e: Any, repl: dict[str, Any]) -> None:
+        """The property's predicate for a chain of wrappers, from the per-gate invocation log alone."""
+        for pos, ev in enumerate(log):
+            if ev[0] == "inner":
+                i = ev[1] - 1
+                if ("g", i, True) not in log[:pos]:
+                    ran = [x for x in log[:pos] if x[0] == "g" and x[1] == i]
+                    key = "chain-inner-consulted-after-own-gate-failed" if ran else "chain-inner-consulted-without-own-gate"
+                    if not ran and gate_modes[i] == "require":
+                        key = "chain-require-gate-skipped"
+                    ctx.violation(key, f"wrapper {i}: inner authenticator consulted although this wrapper's own gate "
+                                  + ("failed" if ran else "was never evaluated") + " for this request", repl)
+        if isinstance(r, AuthContext) and e is None:
+            last = log[-1] if log else None
+            ok = last is not None and (
+                (last[0] == "inner" and isinstance(inners[last[1] - 1], AuthContext))
+                or (last[0] == "g" and last[2] and inners[last[1]] == "NONE")
+            )
+            if not ok:
+                ctx.violation("chain-context-from-wrapper-whose-gate-never-ran", "the chain returned a context that no wrapper with an evaluated, passing gate produced", repl)
+
+    def multi_cases() -> Any:
+        for n in (2, 3):
+            combos = list(itertools.product(itertools.product(GATE_KINDS, repeat=n), TOKENS, itertools.product(range(len(W_INNER)), repeat=n)))
+            # the seeded-change class first: every 2-wrapper combination; 3-wrapper ones sampled in the quick tier
+            if n == 3 and not thorough:
+                combos = rng.sample(combos, 400)
+            yield from combos
+
+    for kinds, tname, inner_ix in multi_cases():
+        log = []
+        maker, seen = TOKENS[tname]
+        value = maker()
+        wrappers, terms, inners = [], [], []
+        for i, ((gmode, which), ix) in enumerate(zip(kinds, inner_ix)):
+            iname, spec = W_INNER[ix]
+            outcome: Any = "NONE" if spec == "NONE" else (AuthContext(domain="cred", authenticated=True, principal=f"user-{i}") if spec is None else spec)
+            inners.append(outcome)
+            gate = make_gate_i(gmode, which, log, i)
+            wrappers.append(require_all(gate, None if outcome == "NONE" else make_inner(i + 1, outcome, log)))
+            terms.append(f"({MODE_COQ[gmode]}, {seen[which]}, {coq_inner(None if outcome == 'NONE' else i + 1, outcome)})")
+        r, e = call(chain_authenticate(*wrappers), make_req(value))
+        repl = {"kind": "chain of require_all wrappers around distinct gates, one request", "gates": [f"{m}:{w}" for m, w in kinds], "token": tname, "header": value,
+                "inners": [W_INNER[ix][0] for ix in inner_ix], "result": repr(r), "exception": repr(e), "log": [list(x) for x in log]}
+        add_case("CaseChainMulti " + clist(terms), enc_out(r, e, log), repl)
+        ctx.case(["chain-multi", kinds, tname, inner_ix])
+        ctx.count("multi_gate_chains")
+        check_multi(log, inners, [m for m, _ in kinds], r, e, repl)
+    ctx.sample({"chain": "require_all(require:A, reject) | require_all(require:B, accept)", "token": "valid-for-A", "expected": "gate B runs, raises unknown_kid; B's inner never consulted"})
+
+    # the same with distinct custom PreconditionGates: equal claims key (also against the model) and different claims keys (oracle only)
+    for same_key in (True, False):
+        for n in (2, 3):
+            for passes, inner_ix in itertools.product(itertools.product((True, False), repeat=n), itertools.product(range(len(W_INNER)), repeat=n)):
+                if n == 3 and not thorough and rng.random() < 0.6:
+                    continue
+                log = []
+                wrappers, terms, inners = [], [], []
+                for i, (p, ix) in enumerate(zip(passes, inner_ix)):
+                    spec = W_INNER[ix][1]
+                    outcome = "NONE" if spec == "NONE" else (AuthContext(domain="cred", authenticated=True, principal=f"user-{i}") if spec is None else spec)
+                    inners.append(outcome)
+
+                    def gfn(req: Any, p: bool = p, i: int = i, log: list[Any] = log) -> Any:
+                        log.append(("g", i, p))
+                        if not p:
+                            raise PermissionError(f"gate {i} refuses")
+                        return dict_of_gclaims([1, 1, 1, 0])
+
+                    gate = PreconditionGate(gfn, name=GKEY, claims_key=GKEY if same_key else f"gate-{i}")
+                    wrappers.append(require_all(gate, None if outcome == "NONE" else make_inner(i + 1, outcome, log)))
+                    gcoq = f"(GClaims {coq_gclaims([1, 1, 1, 0])})" if p else "(GRaise XPerm)"
+                    terms.append(f"({gcoq}, {coq_inner(None if outcome == 'NONE' else i + 1, outcome)})")
+                r, e = call(chain_authenticate(*wrappers), make_req(None))
+                repl = {"kind": "chain of require_all wrappers around distinct custom gates, one request", "same_claims_key": same_key, "gate_passes": list(passes),
+                        "inners": [W_INNER[ix][0] for ix in inner_ix], "result": repr(r), "exception": repr(e), "log": [list(x) for x in log]}
+                if same_key:
+                    add_case("CaseChainMultiCustom " + clist(terms), enc_out(r, e, log), repl)
+                ctx.case(["chain-multi-custom", same_key, passes, inner_ix])
+                ctx.count("multi_gate_chains")
+                check_multi(log, inners, ["require" if not p else None for p in passes], r, e, repl)
 
     # ------------------------------------------------------------------ 5. through the Falcon app: the AuthContext the method sees
     server = RpcServer(C24Service, _C24Impl())
